@@ -35,7 +35,8 @@ def gen_json(rng, depth=0):
         if k < 0.3:
             return rng.choice([0, 1, -1, 42, 2 ** 63, -2 ** 70, 10 ** 30])
         if k < 0.7:
-            return rng.choice(['', 'a', 'é', 'x"y', 'back\\slash', 'new\nline', 'tab\t', '\x00\x1f\x7f', '😀', '\ud800',
+            return rng.choice(['text/x-diff; charset=utf-16', 'text/plain; charset=utf-32-be', 'utf-16', 'dos', 'cp037',
+                               '', 'a', 'é', 'x"y', 'back\\slash', 'new\nline', 'tab\t', '\x00\x1f\x7f', '😀', '\ud800',
                                ' ', 'path/to/file', '</script>', '{"a": 1}', '#.change:'])
         if k < 0.8:
             return rng.choice([True, False])
@@ -46,7 +47,9 @@ def gen_json(rng, depth=0):
 
 
 def gen_dict(rng, depth=0, allow_empty=False):
-    keys = ['a', 'b', 'path', 'stats', 'é', 'Z', 'z', 'aa', '', 'x"y', '10', '9', '😀', 'new\nline', 'k k', '\x7f']
+    keys = ['a', 'b', 'path', 'stats', 'é', 'Z', 'z', 'aa', '', 'x"y', '10', '9', '😀', 'new\nline', 'k k', '\x7f',
+            # metadata that MENTIONS what headers declare: never an instruction to the reader
+            'mimetype', 'encoding', 'line_endings', 'length', 'indent', 'charset', 'type', 'format']
     n = rng.randint(0 if allow_empty else 1, 4)
     d = {}
     for _ in range(n):
@@ -66,6 +69,9 @@ def gen_diff(rng, enc):
     if enc is None:
         return t.encode('latin-1')
     try:
+        if enc in ('utf-16', 'utf-32') and rng.random() < 0.4:
+            # the generic codec with the byte order mark of the OTHER (big-endian) order: still valid for that codec
+            return (b'\xfe\xff' + t.encode('utf-16-be')) if enc == 'utf-16' else (b'\x00\x00\xfe\xff' + t.encode('utf-32-be'))
         return t.encode(enc)
     except UnicodeError:
         return t.encode('utf-8')
